@@ -10,6 +10,33 @@ BASELINE = ("cd /repo && /venv/bin/python -m pytest -ra -q -p no:cacheprovider -
 
 # id -> (category, technique, level text, level note, design ref)
 CHECKS = {
+    "C11": ("exploration",
+            "Hypothesis-generated documents x every node as copy root x flags, two-phase (copy, then edit one "
+            "side) with equality, identity-walk and unchanged-snapshot oracles",
+            "clone (all flag combinations), export_leaf and TemplateHandler.clone_section are taken from every "
+            "node of generated documents; at copy time equality, content, detachment, id freshness/identity and "
+            "an identity walk for shared mutable objects are checked; afterwards generated edit sequences on "
+            "one side must leave the identity snapshot of the other side unchanged. Sampling only.",
+            "Documents without resolved links.",
+            "DESIGN.md section 5, C11"),
+    "C13": ("exploration",
+            "Hypothesis-generated pairs of Section trees with controlled overlap + complete conflict-placement "
+            "table; independent completeness/conservativeness model, all-or-nothing by identity snapshot",
+            "Pairs built from a common skeleton with per-node and per-Property decisions cover every overlap "
+            "shape the property lists, in both strict modes; one conflict of each kind is planted at every "
+            "position of a fixed skeleton (complete table, both tiers). On success dest is checked against an "
+            "independent model, on any exception dest must be unchanged, src always.",
+            "Value membership not multiplicity; case/whitespace-only differences may go either way in strict mode.",
+            "DESIGN.md section 5, C13"),
+    "C14": ("exploration",
+            "exhaustive enumeration of all small trees over prefix-related names + Hypothesis large trees; "
+            "identity of path lookups, reference BFS and reference find predicates",
+            "All 196 ordered forests with <= 6 Sections x 6 name rotations are enumerated completely: every "
+            "node, every ordered pair, every start x depth x yield_self x filter and a grid of find / "
+            "find_related queries, compared with reference implementations written in the harness "
+            "(exhaustive within these bounds); random trees up to 200 Sections add scale.",
+            "Names free of '/', ':' and not '.'/'..'; queries carry a name and/or a type.",
+            "DESIGN.md section 5, C14"),
     "C08": ("exploration",
             "Hypothesis-generated documents with invalidating edits; differential against an independent "
             "re-implementation of each documented validation rule (iff per object, kind and rank)",
